@@ -125,6 +125,30 @@ pub fn run(ctx: &mut Ctx) {
             judge_ast(ctx, &ast, &plain, &format!("single:{}", comparator_shape(*op, p)));
         }
     }
+    // SP: every operator x shape under each single loose-spelling feature (exhaustive)
+    ctx.stratum("SP-every-operator-shape-under-each-spelling", true);
+    let features: Vec<(&str, Spelling)> = vec![
+        ("blank-after-op", Spelling { op_blanks: 1, ..Spelling::plain() }),
+        ("blanks-after-op", Spelling { op_blanks: 3, ..Spelling::plain() }),
+        ("tab-after-op", Spelling { op_blanks: 1, tab: true, ..Spelling::plain() }),
+        ("v-prefix", Spelling { v_prefix: true, ..Spelling::plain() }),
+        ("v-prefix+blank-after-op", Spelling { v_prefix: true, op_blanks: 2, ..Spelling::plain() }),
+        ("leading-zero", Spelling { lead_zero: true, ..Spelling::plain() }),
+        ("hyphenless-pre", Spelling { hyphenless_pre: true, ..Spelling::plain() }),
+        ("outer-blanks", Spelling { lead_blank: 2, trail_blank: 1, ..Spelling::plain() }),
+        ("all", Spelling { op_blanks: 1, sep_blanks: 2, v_prefix: true, lead_zero: true, hyphenless_pre: true, lead_blank: 1, trail_blank: 1, ..Spelling::plain() }),
+    ];
+    for (op, p) in e1_comparators(&[0, 1, 2]).iter().filter(|(_, p)| p.comps.iter().filter_map(|c| if let Xr::Num(n) = c { Some(*n) } else { None }).collect::<Vec<_>>().windows(2).all(|w| w[0] != w[1] || w[0] == 0)) {
+        for (name, sp) in &features {
+            if ctx.take() {
+                // alone, and as the second comparator / second alternative (spelling after a separator)
+                judge_ast(ctx, &RangeAst::single(*op, p.clone()), sp, &format!("spelling:{}:{}", name, op.name()));
+                let lead = Tok::Cmp(Op::Ge, Partial { comps: vec![Xr::Num(0)], pre: vec![], build: vec![] });
+                judge_ast(ctx, &RangeAst { alts: vec![Alt::Set(vec![lead.clone(), Tok::Cmp(*op, p.clone())])] }, sp, &format!("spelling2:{}:{}", name, op.name()));
+                judge_ast(ctx, &RangeAst { alts: vec![Alt::Set(vec![Tok::Cmp(Op::Bare, Partial::full(&MV::new(9, 9, 9)))]), Alt::Set(vec![Tok::Cmp(*op, p.clone())])] }, sp, &format!("spelling-or:{}:{}", name, op.name()));
+            }
+        }
+    }
     // E3 hyphen
     ctx.stratum("E3-hyphen-shapes", true);
     let mut hy: Vec<Partial> = vec![];
